@@ -5,7 +5,18 @@
      parsed inside defchordsv2."""
 from kq.analysis import backward_slice, blocks_calling, discr_switches
 from kq.core import callee_name, const_def, const_val, is_const, proj_fields
+from kq.core import Resolver
 from kq.report import RuleResult
+
+_ENG = {}
+
+
+def _engine(prog):
+    from rules.r_panic import Engine
+    if id(prog) not in _ENG:
+        _ENG.clear()
+        _ENG[id(prog)] = Engine(prog, set())
+    return _ENG[id(prog)]
 
 OSC = "kanata_parser::keys::OsCode"
 ACTION = "kanata_keyberon::action::Action"
@@ -75,6 +86,61 @@ def run(prog):
                     if is_const(o) and ((const_def(o) or "").endswith("KEYS_IN_ROW") or const_val(o) == rowlen):
                         ok = True
         chk("vkeys-bounded/" + nm.split("::")[-1], ok, "%s no longer bounds the number of virtual keys by KEYS_IN_ROW" % nm.split("::")[-1], g.loc)
+        # the index stored with each key is < KEYS_IN_ROW at the moment it is stored: later definitions may already
+        # use it (an `input virtual` switch condition needs it < 0x400, parse_layers indexes the row with it)
+        eng = _engine(prog)
+        gf = eng.gf(g)
+        n = 0
+        for bi, t in g.calls():
+            if not (callee_name(t) or "").endswith("HashMap::insert"):
+                continue
+            r = Resolver(g).root(t["args"][0])
+            if not any(fl[2] == "virtual_keys" for fl in r[2]):
+                continue
+            rv = Resolver(g).root(t["args"][2])
+            val = None
+            if rv[0] == "agg" and rv[1][2].get("tup"):
+                abi, asi, agg = rv[1]
+                st = gf.block_in.get(abi)
+                if st is not None:
+                    st = st.copy()
+                    for stm in g.stmts(abi)[:asi]:
+                        if stm["k"] == "assign":
+                            gf._assign(st, stm)
+                    val = gf.value(st, agg["ops"][0])
+            okv = val is not None and not val.is_empty() and val.hi() < rowlen and rowlen <= 0x400
+            n += 1
+            res.inst("vkey-index-bounded/%s#%d" % (nm.split("::")[-1], n), ok=okv, value=str(val))
+            res.oblige(okv)
+            if not okv:
+                res.viol("vkey-index-bounded/" + nm.split("::")[-1], "%s:%s" % (g.file, t.get("ln")),
+                         "the index stored for a new virtual key is not known to be < KEYS_IN_ROW (%d) when it is stored (value set %s): "
+                         "actions parsed afterwards can already refer to it" % (rowlen, val))
+        if n == 0:
+            res.viol("vkey-index-bounded/%s/anchor" % nm.split("::")[-1], g.loc, "no insertion into virtual_keys found")
+    # layer count: every layer index handed out by parse_layer_indexes is < MAX_LAYERS (asserted by the switch
+    # opcode constructors, the switch parser and Layout::new) and fits the u16 the opcodes store it in
+    max_layers = prog.const("kanata_keyberon::layout::MAX_LAYERS")
+    pc = prog.fn("kanata_parser::cfg::parse_cfg_raw_string")
+    res.fn(pc)
+    gfp = _engine(prog).gf(pc)
+    n = 0
+    for bi, t in pc.calls():
+        if not (callee_name(t) or "").endswith("cfg::parse_layer_indexes"):
+            continue
+        n += 1
+        stp = gfp.before_term(bi)
+        lk = gfp.len_key(t["args"][0])
+        lv = stp.get(lk) if (stp is not None and lk is not None) else None
+        okv = lv is not None and not lv.is_empty() and lv.lo() >= 1 and lv.hi() < max_layers <= 0xFFFF
+        res.inst("layer-count-bounded#%d" % n, ok=okv, value=str(lv), max_layers=max_layers)
+        res.oblige(okv)
+        if not okv:
+            res.viol("layer-count-bounded", "%s:%s" % (pc.file, t.get("ln")),
+                     "layer indexes are assigned to %s layers: not known to be in 1..MAX_LAYERS-1 (%d); users of a layer index "
+                     "(switch layer conditions, Layout::new) assert idx < MAX_LAYERS" % (lv, max_layers - 1))
+    if n == 0:
+        res.viol("layer-count-bounded/anchor", pc.loc, "call to parse_layer_indexes not found")
     # (b) coordinate-resolved actions are forbidden while parsing defchordsv2
     pa = prog.fn("kanata_parser::cfg::parse_action_atom")
     res.fn(pa)
